@@ -11,7 +11,7 @@ fam = sys.argv[1]
 apply = "--apply" in sys.argv
 BASE = next((a.split("=", 1)[1] for a in sys.argv if a.startswith("--base=")), "builders-base")
 SRC = "/work/%s/verif" % fam
-DST = "/verif"
+DST = os.environ.get("VERIF_DST", "/verif")
 SKIP_DIRS = {".git", ".lake", "__pycache__", "evidence", "replays"}
 SKIP_FILES = {"MANIFEST.json", "lean/.build.lock", "known_findings.json"}
 
@@ -51,6 +51,8 @@ for r in changed:
 print("CONFLICTS (%d):" % len(conflicts))
 for r in conflicts:
     print("  ", r)
+if "--force" in sys.argv:   # second integration of the same family: its own files differ from the base tag
+    changed += conflicts
 if apply:
     for r in changed:
         os.makedirs(os.path.dirname(os.path.join(DST, r)), exist_ok=True)
